@@ -24,6 +24,7 @@ var lawNames = []string{
 	"weld∘weld ≡ weld",
 	"toPointCloud∘toPointCloud ≡ toPointCloud",
 	"translate(a)∘translate(b) ≈ translate(a+b)",
+	"base.Append(a) is what it was after base.Append(b) (base = unweld(m), base = m.Append(m))",
 	"smoothNormals∘scale(σ) ≡ smoothNormals (normals do not depend on the unit of length)",
 	"flatNormals∘scale(σ) ≡ flatNormals (normals do not depend on the unit of length)",
 	"smoothNormalsImplicitWeld(σd)∘scale(σ) ≡ smoothNormalsImplicitWeld(d)",
@@ -241,6 +242,43 @@ func (k checker) law(s meshlib.Spec, sh ml.Shape, name string) {
 			}
 			return "", ""
 		}
+	case "base.Append(a) is what it was after base.Append(b) (base = unweld(m), base = m.Append(m))":
+		// the single-operation contract judges one Append; a value that has been appended to once must
+		// stay what the contract said it was when the same base is appended to again (bases that own
+		// spare capacity: results of Unweld, of an earlier Append, of a weld)
+		site = "modeling.Mesh.Append"
+		f = func() (string, string) {
+			bases := []func() modeling.Mesh{
+				func() modeling.Mesh { return s.Build().Append(s.Build()) },
+				func() modeling.Mesh { return s.Build() },
+			}
+			if tri {
+				bases = append(bases, func() modeling.Mesh { return meshops.Unweld(s.Build()) })
+				if hasP {
+					bases = append(bases, func() modeling.Mesh { return s.Build().WeldByFloat3Attribute(ml.P, 3) })
+				}
+			}
+			opA := ml.AppendOperands[2]
+			if sh.Topo == "point" {
+				opA = ml.AppendOperands[4]
+			}
+			for bi, mk := range bases {
+				base := mk()
+				first := base.Append(opA.Build())
+				before := meshlib.Snapshot(first).Hash()
+				// the same base appended to again, with an operand of the same size and other values
+				second := opA.Build()
+				if second.HasFloat3Attribute(ml.P) {
+					second = second.Translate(vector3.New(7., -7., 7.5))
+				}
+				_ = base.Append(second)
+				_ = base.Append(s.Build())
+				if after := meshlib.Snapshot(first).Hash(); after != before {
+					return clLaw, fmt.Sprintf("base %d: the first result of base.Append changed when the same base was appended to again: %s", bi, meshlib.Snapshot(first).Diff(meshlib.Snapshot(mk().Append(opA.Build()))))
+				}
+			}
+			return "", ""
+		}
 	case "smoothNormals∘scale(σ) ≡ smoothNormals (normals do not depend on the unit of length)",
 		"flatNormals∘scale(σ) ≡ flatNormals (normals do not depend on the unit of length)",
 		"smoothNormalsImplicitWeld(σd)∘scale(σ) ≡ smoothNormalsImplicitWeld(d)":
@@ -254,7 +292,9 @@ func (k checker) law(s meshlib.Spec, sh ml.Shape, name string) {
 			op = func(m modeling.Mesh, _ float64) modeling.Mesh { return meshops.FlatNormals(m) }
 		case len(name) > 25 && name[:25] == "smoothNormalsImplicitWeld":
 			site = "meshops.SmoothNormalsImplicitWeld"
-			op = func(m modeling.Mesh, sigma float64) modeling.Mesh { return meshops.SmoothNormalsImplicitWeld(m, 0.25*sigma) }
+			op = func(m modeling.Mesh, sigma float64) modeling.Mesh {
+				return meshops.SmoothNormalsImplicitWeld(m, 0.25*sigma)
+			}
 		default:
 			site = "meshops.SmoothNormals"
 			op = func(m modeling.Mesh, _ float64) modeling.Mesh { return meshops.SmoothNormals(m) }
